@@ -42,7 +42,7 @@ def _complete_lines(path):
 def ring1(ctx, b):
     prog = build.compile_prog("sched", "pool_drv", ["pool_drv.c", "vs_sched.c"], extra_flags=["-I", os.path.join(build.REPO, "mtbl")])
     wd = ctx.sub("ring1")
-    runs = 300 if ctx.quick() else 4000
+    runs = 300 if ctx.quick() else 1500
     n = 0
     for (P, J, NC) in [(1, 3, 1), (2, 3, 1), (2, 4, 1), (3, 5, 1), (1, 2, 2), (2, 3, 2)] + ([] if ctx.quick() else [(3, 6, 2), (4, 8, 1), (2, 0, 1)]):
         for ordered in ((1, 0, 2) if NC > 1 else (1, 0)):        # 2: client 1 ordered (a writer), the others unordered (sorters)
@@ -292,7 +292,7 @@ def ring1_steps(ctx, b):
     model no longer describes the code (model_drift, reported in the evidence; the verdicts rest on PoolAbs)."""
     prog = build.compile_prog("sched", "pool_drv", ["pool_drv.c", "vs_sched.c"], extra_flags=["-I", os.path.join(build.REPO, "mtbl")])
     wd = ctx.sub("steps")
-    runs = 40 if ctx.quick() else 600
+    runs = 40 if ctx.quick() else 250
     n = 0
     for (P, J) in [(1, 2), (2, 3), (3, 4)] + ([] if ctx.quick() else [(2, 6), (4, 5), (1, 0)]):
         for ordered in (1, 0):
@@ -350,7 +350,7 @@ def ring2(ctx, b):
     wd = ctx.sub("ring2")
     plain = build.build("asan")
     comps = ["zlib", "none"] if ctx.quick() else gen.COMPS
-    nsched = 60 if ctx.quick() else 400
+    nsched = 60 if ctx.quick() else 130
     recs = []
     for comp in comps:
         vg = gen.VGen(31000)
